@@ -37,10 +37,14 @@ Section Field.
     tr f (IObj p k fs) = Some o -> exists kvs, o = Some (FObj kvs).
   Hypothesis HLo : forall f p k fs kvs, wf (IObj p k fs) = true -> ddepth (IObj p k fs) <= g ->
     tr f (IObj p k fs) = Some (Some (FObj kvs)) -> li (FObj kvs) = Some (nrm (IObj p k fs)).
-  Hypothesis HLs : forall raw u, 1 <= g -> url_classify (fj_unescape raw) = UValid u ->
-    li (Text.FStr raw) = Some (IIri false (fj_unescape raw)).
+  Hypothesis HLs : forall raw s, 1 <= g -> as_iri (Text.FStr raw) = Some (Some s) -> li (Text.FStr raw) = Some (IIri false s).
   Hypothesis HKo : forall f p k fs kvs, wf (IObj p k fs) = true -> ddepth (IObj p k fs) <= g ->
     tr f (IObj p k fs) = Some (Some (FObj kvs)) -> tree_ok (2 * ddepth (IObj p k fs) + 1) (FObj kvs).
+  Hypothesis HDo : forall f p k fs kvs, wf (IObj p k fs) = true -> ddepth (IObj p k fs) <= g ->
+    tr f (IObj p k fs) = Some (Some (FObj kvs)) -> ddepth (IObj p k fs) <= S (fdepth (FObj kvs)).
+
+  (* the struct-valued Go types: their values are written and read by tables of their own (Proofs/C01LeafP.v) *)
+  Definition leafless (ty : gotype) : bool := match ty with TSource | TEndpoints | TPubKey => false | _ => true end.
 
   (* a set, well-formed value passes every guard that fits its type *)
   Lemma guard_pass ty f fs v b gd : getf f fs = Some v -> wfv ty v = true -> guard_fits ty f gd = true -> b <> [] ->
@@ -48,7 +52,7 @@ Section Field.
   Proof.
     intros Hg Hw Hf Hb. destruct gd as [f'|f'|f'|f'|f'| |src]; cbn [guard_fits] in Hf; try discriminate;
       try (apply andb_true_iff in Hf; destruct Hf as [Hff Hty]; apply fid_beq_eq in Hff; subst f'; cbn [eval_guard]; rewrite Hg).
-    - destruct ty; try discriminate; destruct v as [i|[l|]|[l|]| | | | | | | | | | ]; try discriminate; try reflexivity.
+    - destruct ty; try discriminate; destruct v as [i|[l|]|[l|]| | | | | | | | |[e|]| ]; try discriminate; try reflexivity.
       destruct i; try discriminate; reflexivity.
     - destruct ty; try discriminate; destruct v as [i|[[|x l]|]|[[|x l]|]|[|c s]| | | | | | | | | ]; try discriminate; reflexivity.
     - destruct ty; try discriminate. destruct v; try discriminate. cbn [g_not_zero_time]. f_equal.
@@ -62,6 +66,10 @@ Section Field.
     - destruct ty; try discriminate. destruct v; try discriminate. cbn [num_of wf_fval] in *. f_equal.
       apply andb_true_iff in Hw. destruct Hw as [Hp _]. apply N.ltb_lt in Hp. apply Z.ltb_lt. lia.
     - cbn [eval_guard]. destruct b; [congruence|reflexivity].
+    - rewrite !andb_true_iff in Hf. destruct Hf as [[Hsrc Hff] Hty]. apply fid_beq_eq in Hff. subst f.
+      cbn [eval_guard]. rewrite Hsrc, Hg. destruct ty; try discriminate. destruct v as [ | | | | | | | | | | | |id ow pem]; try discriminate.
+      cbn [wf_fval] in Hw. rewrite !andb_true_iff, negb_true_iff in Hw. destruct Hw as [_ Hne]. cbn [pubkey_guard].
+      destruct id, ow, pem; try reflexivity. discriminate.
   Qed.
 
   Lemma guards_pass ty f fs v b gs : getf f fs = Some v -> wfv ty v = true -> forallb (guard_fits ty f) gs = true -> b <> [] ->
@@ -83,9 +91,11 @@ Section Field.
   Proof.
     intros Hg Hf. induction gs as [|gd r IH]; [reflexivity|]. cbn [forallb] in Hf. apply andb_true_iff in Hf.
     destruct Hf as [H1 H2]. cbn [filter].
-    destruct gd as [f'|f'|f'|f'|f'| |src]; cbn [nonval guard_fits] in *; try discriminate; try exact (IH H2);
-      apply andb_true_iff in H1; destruct H1 as [Hff _]; apply fid_beq_eq in Hff; subst f';
-      cbn [eval_guards eval_guard]; rewrite Hg; reflexivity.
+    destruct gd as [f'|f'|f'|f'|f'| |src]; cbn [nonval guard_fits] in *; try discriminate; try exact (IH H2).
+    1-5: (apply andb_true_iff in H1; destruct H1 as [Hff _]; apply fid_beq_eq in Hff; subst f';
+          cbn [eval_guards eval_guard]; rewrite Hg; reflexivity).
+    rewrite !andb_true_iff in H1. destruct H1 as [[Hsrc Hff] _]. apply fid_beq_eq in Hff. subst f.
+    cbn [eval_guards eval_guard]. rewrite Hsrc, Hg. reflexivity.
   Qed.
 
   (* ---------------------------------------------------------------- lookups in the written object *)
@@ -447,7 +457,8 @@ Section Field.
     Hypothesis Hms : forallb (fun kv => key_plain (fst kv)) ms = true.
     Notation t_run := (t_run_table jw_tables d (tr fe)).
     Notation val := (FObj ms).
-    Notation gv := (get_value jr_tables li 3 val).
+    Variable dg : nat.          (* the getters run at depth S dg: 3 for the properties of an object, 2 for those of a leaf struct *)
+    Notation gv := (get_value jr_tables li (S dg) val).
 
     Lemma entry_out_set ty f t w via gs v t' tv r0 :
       getf f fs = Some v -> wfv ty v = true -> forallb (guard_fits ty f) gs = true ->
@@ -466,27 +477,30 @@ Section Field.
     Lemma jstr_sub t raw : key_plain t = true -> jget val t = Some (Text.FStr raw) -> jstr (sub_get val t) = fj_unescape raw.
     Proof. intros Hp H. unfold sub_get. rewrite (plain_no_dot t Hp), H. reflexivity. Qed.
 
-    Lemma field_set ty f e r o v :
+    (* the members a set field contributes: inside the decoder model, at most 2 * depth + 2 deep, and at least as
+       deep as the value nests (so a bound on the nesting of the document bounds the fuel the decoder needs) *)
+    Definition member_ok (v : fval) (tv : fjv) : Prop := tree_ok (2 * fdepth_v v + 2) tv /\ fdepth_v v <= S (fdepth tv).
+
+    Lemma field_set_basic ty f e r o v :
+      leafless ty = true ->
       pair_ok ty f e r = true ->
       entry_out jw_tables (tr fe) d fs e = Some o ->
       (forall k0, In k0 (keys_of e) -> find_key (fun k => k) ms k0 = find_key (fun k => k) o k0) ->
       getf f fs = Some v -> wfv ty v = true -> fdepth_v v <= g ->
-      o <> [] /\ (forall kv, In kv o -> tree_ok (2 * fdepth_v v + 2) (snd kv)) /\
+      o <> [] /\ (forall kv, In kv o -> member_ok v (snd kv)) /\
       exists x, gv (rf_getter r) (rf_term r) (rf_conv r) = Some (Some x)
                 /\ link_guard (rf_guard r) x = nrmv v /\ fval_is_zero (nrmv v) = false.
     Proof.
-      intros Hpair Hout Hlook Hg Hw Hd.
-      assert (Leaf : forall (t0 : bytes) (tv0 : fjv) n, keys_clean tv0 = true -> fdepth tv0 <= 2 ->
-                forall kv, In kv [(t0, tv0)] -> tree_ok (2 * n + 2) (snd kv))
-        by (intros t0 tv0 n Hc Hdp kv [<-|[]]; split; [exact Hc|cbn [snd]; lia]).
+      intros Hnl Hpair Hout Hlook Hg Hw Hd.
+      assert (Leaf : forall (t0 : bytes) (tv0 : fjv) v0, fdepth_v v0 = 0 -> keys_clean tv0 = true -> fdepth tv0 <= 2 ->
+                forall kv, In kv [(t0, tv0)] -> member_ok v0 (snd kv))
+        by (intros t0 tv0 v0 Hv0 Hc Hdp kv [<-|[]]; unfold member_ok; rewrite Hv0; split; [split; [exact Hc|cbn [snd]; lia]|lia]).
       destruct e as [t w p via gs]. destruct r as [rfid rt rg rc rgd].
       unfold pair_ok in Hpair. apply andb_true_iff in Hpair. destruct Hpair as [Hpair Htotal].
       unfold pair_ok_core in Hpair. cbn [wf_path wf_term wf_guards rf_term rf_getter rf_conv rf_guard] in *.
       rewrite !andb_true_iff in Hpair. destruct Hpair as [[[[[[[Hp Ht] Hplain] Hwf] Hgf] Hgs] Hcv] Hty].
       destruct p as [|f' [|f2 p]]; try discriminate. apply fid_beq_eq in Hp. subst f'.
       apply bytes_eqb_eq in Ht. subst rt.
-      assert (Hgs' : forallb (guard_fits ty f) gs = true) by (destruct ty; try exact Hgs; destruct v; discriminate).
-      clear Hgs. rename Hgs' into Hgs.
       assert (Hout0 := Hout). unfold entry_out in Hout0. cbn [wf_guards wf_writer wf_via wf_term wf_path path_get] in Hout0.
       rewrite Hg in Hout0.
       rewrite (guards_pass ty f fs v [x30] _ Hg Hw (forallb_filter _ _ _ Hgs)) in Hout0 by discriminate.
@@ -499,8 +513,11 @@ Section Field.
         destruct v as [i| | | | | | | | | | | | ]; try discriminate. cbn [wf_fval fdepth_v] in Hw, Hd.
         destruct (tval_item t_run w via t i t' ov r0 Hwf Hw Hd Ev) as [-> [f' [tv [-> Htree]]]].
         rewrite (Fin tv eq_refl) in *. split; [discriminate|].
-        split; [intros kv [<-|[]]; exact (item_tree_ok jw_tables layout_of registry load_switch activity_types actor_types link_types
-                                            li g HEo HLo HLs HKo f' i tv Htree)|].
+        split; [intros kv [<-|[]]; split;
+                [exact (item_tree_ok jw_tables layout_of registry load_switch activity_types actor_types link_types
+                          li g HEo HLo HLs HKo f' i tv Htree)
+                |exact (item_tree_deep jw_tables layout_of registry load_switch activity_types actor_types link_types
+                          li g HEo HLo HLs HDo f' i tv Htree)]|].
         assert (Hj : jget val t = Some tv).
         { apply get_hit; [exact Hplain|]. apply Hlook. unfold keys_of, is_nlv_writer. cbn [wf_writer wf_term].
           apply bytes_eqb_eq in Hwf. subst w. ev_eqb. left. reflexivity. }
@@ -529,9 +546,11 @@ Section Field.
         + destruct (tval_items_coll t_run w via t x l t' ov r0 Hwf Hw Hd Ev) as [-> [ts [-> Hf]]].
           rewrite (Fin _ eq_refl) in *. split; [discriminate|].
           destruct (wf_items_elems x l Hw Hd) as [Hok Hdist].
-          split; [intros kv [<-|[]]; cbn [snd];
-                  apply (forall2_trees_ok jw_tables layout_of registry load_switch activity_types actor_types link_types
-                           li g HEo HLo HLs HKo fe (x :: l) ts Hok Hf); intros y Hy; exact (ddepth_list_in (x :: l) y Hy)|].
+          split; [intros kv [<-|[]]; cbn [snd]; split;
+                  [apply (forall2_trees_ok jw_tables layout_of registry load_switch activity_types actor_types link_types
+                           li g HEo HLo HLs HKo fe (x :: l) ts Hok Hf); intros y Hy; exact (ddepth_list_in (x :: l) y Hy)
+                  |apply le_S; exact (forall2_trees_deep jw_tables layout_of registry load_switch activity_types actor_types link_types
+                           li g HEo HLo HLs HDo fe (x :: l) ts Hok Hf)]|].
           assert (Hj : jget val t = Some (FArr ts)) by (apply get_hit; [exact Hplain|apply Hlook; exact Hkey]).
           exists (FItems (Some (map nrm (x :: l)))). rewrite gv_items. unfold jget_items. rewrite Hj.
           rewrite (items_fn_u_read jw_tables layout_of registry load_switch activity_types actor_types link_types li g HEo HLo HLs
@@ -539,8 +558,11 @@ Section Field.
           cbn [map]. split; [reflexivity|]. split; [|exact Hnz]. rewrite Hnorm. unfold link_guard. destruct (bytes_eqb rgd _); reflexivity.
         + destruct (tval_items_ip t_run w via t x l t' ov r0 Hwf Hw Hd Ev) as [-> [f' [tv [-> Htree]]]].
           rewrite (Fin _ eq_refl) in *. split; [discriminate|].
-          split; [intros kv [<-|[]]; exact (item_tree_ok jw_tables layout_of registry load_switch activity_types actor_types link_types
-                                              li g HEo HLo HLs HKo f' (IItems false (Some (x :: l))) tv Htree)|].
+          split; [intros kv [<-|[]]; split;
+                  [exact (item_tree_ok jw_tables layout_of registry load_switch activity_types actor_types link_types
+                            li g HEo HLo HLs HKo f' (IItems false (Some (x :: l))) tv Htree)
+                  |exact (item_tree_deep jw_tables layout_of registry load_switch activity_types actor_types link_types
+                            li g HEo HLo HLs HDo f' (IItems false (Some (x :: l))) tv Htree)]|].
           assert (Hj : jget val t = Some tv) by (apply get_hit; [exact Hplain|apply Hlook; exact Hkey]).
           exists (FItems (Some (map nrm (x :: l)))). rewrite gv_items.
           rewrite (get_items_read jw_tables layout_of registry load_switch activity_types actor_types link_types li g HEo HLo HLs
@@ -558,13 +580,13 @@ Section Field.
         destruct l as [|[r1 s1] [|e2 l']].
         + unfold text_ok in Hw. discriminate.
         + destruct Hv as [-> ->]. rewrite (Fin _ eq_refl) in *. split; [discriminate|].
-          split; [apply Leaf; [reflexivity|cbn; lia]|].
+          split; [apply Leaf; [reflexivity|reflexivity|cbn; lia]|].
           rewrite (get_hit false t _ Hplain (Hlook t Hk1)).
           cbn [forallb] in Hall. rewrite andb_true_r in Hall. destruct (ok_entryb_ok _ Hall) as [_ [_ [Hvs _]]]. cbn [snd] in Hvs.
           rewrite (string_bytes_decodes false s1 Hvs).
           eexists. split; [reflexivity|]. split; [unfold link_guard; destruct (bytes_eqb rgd _); reflexivity|reflexivity].
         + destruct Hv as [-> ->]. rewrite (Fin _ eq_refl) in *. split; [discriminate|].
-          split; [apply Leaf; [exact (nlv_keys_clean _ Hall)|apply nlv_map_depth]|].
+          split; [apply Leaf; [reflexivity|exact (nlv_keys_clean _ Hall)|apply nlv_map_depth]|].
           assert (Hmiss : fj_get false val t = None).
           { rewrite (fj_get_plain false ms t Hms Hplain), (Hlook t Hk1). cbn [find_key].
             rewrite (bytes_eqb_app_ne t (B "Map")) by discriminate. reflexivity. }
@@ -575,7 +597,7 @@ Section Field.
         assert (Hwf' : writer_fits TString (mkwf t w [] via []) = true) by exact Hwf.
         destruct (tval_string t_run w via t s t' ov r0 Hwf' Hw Ev) as [-> [raw [-> Hdec]]].
         rewrite (Fin _ eq_refl) in *. split; [discriminate|].
-        split; [apply Leaf; [reflexivity|cbn; lia]|].
+        split; [apply Leaf; [reflexivity|reflexivity|cbn; lia]|].
         destruct (string_ok_facts s Hw) as [Hne _].
         assert (Hkey : In t (keys_of (mkwf t w [f] via gs))).
         { unfold keys_of, is_nlv_writer. cbn [wf_writer wf_term]. cbn [writer_fits wf_writer] in Hwf.
@@ -588,7 +610,7 @@ Section Field.
         + assert (Hin : In rg str_getters).
           { apply existsb_in in Hgf. simpl in Hgf. unfold str_getters. simpl.
             repeat (destruct Hgf as [Hgf|Hgf]; [tauto|]). destruct Hgf as [Hgf|[]]. subst rg. vm_compute in Eu. discriminate. }
-          exists (Vocab.FStr s). rewrite (gv_str 2 val rg t rc Hin), (jstr_sub t raw Hplain Hj), Hdec.
+          exists (Vocab.FStr s). rewrite (gv_str dg val rg t rc Hin), (jstr_sub t raw Hplain Hj), Hdec.
           split; [destruct s; [congruence|reflexivity]|]. split; [|change (nrmv (Vocab.FStr s)) with (Vocab.FStr s); cbn [fval_is_zero]; destruct s; [congruence|reflexivity]].
           unfold link_guard. destruct (bytes_eqb rgd (B "x != nil;GetLink")); reflexivity.
       - (* TTime *)
@@ -598,7 +620,7 @@ Section Field.
         { unfold time_ok in Hw. rewrite !andb_true_iff in Hw. destruct Hw as [[H1 H2] _]. unfold time_dom. rewrite H1, H2. reflexivity. }
         unfold t_value in Ev. ev_eqb_in Ev. rewrite (TimeRangeP.time_writable_dom tm), Hdom0 in Ev.
         injection Ev as E1 E2 E3; subst t' ov r0. rewrite (Fin _ eq_refl) in *. split; [discriminate|].
-        split; [apply Leaf; [reflexivity|cbn; lia]|].
+        split; [apply Leaf; [reflexivity|reflexivity|cbn; lia]|].
         assert (Hkey : In t (keys_of (mkwf t (B "JSONWriteTimeProp") [f] via gs))) by (unfold keys_of, is_nlv_writer; cbn [wf_writer wf_term]; ev_eqb; left; reflexivity).
         assert (Hj : jget val t = Some (Text.FStr (fmt_rfc3339_utc (vsecs tm)))) by (apply get_hit; [exact Hplain|apply Hlook; exact Hkey]).
         unfold time_ok in Hw. rewrite !andb_true_iff, negb_true_iff in Hw. destruct Hw as [[H1 H2] H3].
@@ -614,7 +636,7 @@ Section Field.
         assert (Hdom : dur_dom dd = true) by exact Hw.
         destruct (dur_roundtrip dd Hdom) as [b [Hb Hpb]]. rewrite Hb in Ev. injection Ev as E1 E2 E3; subst t' ov r0.
         rewrite (Fin _ eq_refl) in *. split; [discriminate|].
-        split; [apply Leaf; [reflexivity|cbn; lia]|].
+        split; [apply Leaf; [reflexivity|reflexivity|cbn; lia]|].
         assert (Hkey : In t (keys_of (mkwf t (B "JSONWriteDurationProp") [f] via gs))) by (unfold keys_of, is_nlv_writer; cbn [wf_writer wf_term]; ev_eqb; left; reflexivity).
         assert (Hj : jget val t = Some (Text.FStr b)) by (apply get_hit; [exact Hplain|apply Hlook; exact Hkey]).
         exists (FDur dd). rewrite gv_dur, Hj. cbn [jstr fj_string_bytes].
@@ -627,7 +649,7 @@ Section Field.
         destruct v as [ | | | | | |n| | | | | | ]; try discriminate. cbn [wf_fval] in Hw.
         apply bytes_eqb_eq in Hwf. subst w. apply bytes_eqb_eq in Hgf. subst rg.
         unfold t_value in Ev. ev_eqb_in Ev. injection Ev as E1 E2 E3; subst t' ov r0. rewrite (Fin _ eq_refl) in *. split; [discriminate|].
-        split; [apply Leaf; [reflexivity|cbn; lia]|].
+        split; [apply Leaf; [reflexivity|reflexivity|cbn; lia]|].
         assert (Hkey : In t (keys_of (mkwf t (B "JSONWriteIntProp") [f] via gs))) by (unfold keys_of, is_nlv_writer; cbn [wf_writer wf_term]; ev_eqb; left; reflexivity).
         assert (Hj : jget val t = Some (FNum (fmt_int (num_of (Some (FUint n)))))) by (apply get_hit; [exact Hplain|apply Hlook; exact Hkey]).
         apply andb_true_iff in Hw. destruct Hw as [Hp Hlt]. apply N.ltb_lt in Hp. apply N.ltb_lt in Hlt.
@@ -640,7 +662,7 @@ Section Field.
         destruct v as [ | | | | | | |z| | | | | ]; try discriminate. cbn [wf_fval] in Hw.
         apply bytes_eqb_eq in Hwf. subst w. apply bytes_eqb_eq in Hgf. subst rg.
         unfold t_value in Ev. ev_eqb_in Ev. injection Ev as E1 E2 E3; subst t' ov r0. rewrite (Fin _ eq_refl) in *. split; [discriminate|].
-        split; [apply Leaf; [reflexivity|cbn; lia]|].
+        split; [apply Leaf; [reflexivity|reflexivity|cbn; lia]|].
         assert (Hkey : In t (keys_of (mkwf t (B "JSONWriteIntProp") [f] via gs))) by (unfold keys_of, is_nlv_writer; cbn [wf_writer wf_term]; ev_eqb; left; reflexivity).
         assert (Hj : jget val t = Some (FNum (fmt_int (num_of (Some (FInt z)))))) by (apply get_hit; [exact Hplain|apply Hlook; exact Hkey]).
         rewrite !andb_true_iff, negb_true_iff in Hw. destruct Hw as [[Hz H1] H2].
@@ -653,7 +675,7 @@ Section Field.
         destruct v as [ | | | | | | | |bb| | | | ]; try discriminate. cbn [wf_fval] in Hw. subst bb.
         apply bytes_eqb_eq in Hwf. subst w. apply bytes_eqb_eq in Hgf. subst rg.
         unfold t_value in Ev. ev_eqb_in Ev. injection Ev as E1 E2 E3; subst t' ov r0. rewrite (Fin _ eq_refl) in *. split; [discriminate|].
-        split; [apply Leaf; [reflexivity|cbn; lia]|].
+        split; [apply Leaf; [reflexivity|reflexivity|cbn; lia]|].
         assert (Hkey : In t (keys_of (mkwf t (B "JSONWriteBoolProp") [f] via gs))) by (unfold keys_of, is_nlv_writer; cbn [wf_writer wf_term]; ev_eqb; left; reflexivity).
         assert (Hj : jget val t = Some FTrue) by (apply get_hit; [exact Hplain|apply Hlook; exact Hkey]).
         exists (FBool true). rewrite gv_bool, Hj.
@@ -662,7 +684,7 @@ Section Field.
         destruct v as [ | | | | | | | | |m| | | ]; try discriminate. cbn [wf_fval] in Hw.
         apply bytes_eqb_eq in Hwf. subst w. apply bytes_eqb_eq in Hgf. subst rg.
         unfold t_value in Ev. ev_eqb_in Ev. injection Ev as E1 E2 E3; subst t' ov r0. rewrite (Fin _ eq_refl) in *. split; [discriminate|].
-        split; [apply Leaf; [reflexivity|cbn; lia]|].
+        split; [apply Leaf; [reflexivity|reflexivity|cbn; lia]|].
         assert (Hkey : In t (keys_of (mkwf t (B "JSONWriteFloatProp") [f] via gs))) by (unfold keys_of, is_nlv_writer; cbn [wf_writer wf_term]; ev_eqb; left; reflexivity).
         assert (Hj : jget val t = Some (FNum (fmt_float (num_of (Some (FFloat m)))))) by (apply get_hit; [exact Hplain|apply Hlook; exact Hkey]).
         rewrite !andb_true_iff, negb_true_iff in Hw. destruct Hw as [Hz Hdom].
@@ -670,9 +692,6 @@ Section Field.
         split; [destruct m; [discriminate|reflexivity|reflexivity]|].
         split; [unfold link_guard; destruct (bytes_eqb rgd (B "x != nil;GetLink")); reflexivity|].
         change (nrmv (FFloat m)) with (FFloat m). cbn [fval_is_zero]. exact Hz.
-      - destruct v; discriminate.
-      - destruct v; discriminate.
-      - destruct v; discriminate.
     Qed.
 
     (* all guards that remain after dropping the value guard are value guards: they only look at the bytes *)
@@ -687,9 +706,9 @@ Section Field.
       find_key (fun k => k) o k0 = None -> fj_get ku val k0 = None.
     Proof. intros Hp H Hn. rewrite (fj_get_plain ku ms k0 Hms Hp), H. exact Hn. Qed.
 
-    Lemma field_unset ty f e r o :
+    Lemma field_unset_basic ty f e r o :
+      leafless ty = true ->
       pair_ok ty f e r = true ->
-      (match ty with TSource => source_reads_ok jr_tables (rf_term r) | _ => true end) = true ->
       entry_out jw_tables (tr fe) d fs e = Some o ->
       (forall k0, In k0 (keys_of e) -> find_key (fun k => k) ms k0 = find_key (fun k => k) o k0) ->
       getf f fs = None ->
@@ -697,32 +716,13 @@ Section Field.
       exists ox, gv (rf_getter r) (rf_term r) (rf_conv r) = Some ox
                  /\ match ox with None => True | Some x => fval_is_zero (link_guard (rf_guard r) x) = true end.
     Proof.
-      intros Hpair Hsrc Hout Hlook Hg.
+      intros Hnl Hpair Hout Hlook Hg.
       destruct e as [t w p via gs]. destruct r as [rfid rt rg rc rgd].
       unfold pair_ok in Hpair. apply andb_true_iff in Hpair. destruct Hpair as [Hpair Htotal].
       unfold pair_ok_core in Hpair. cbn [wf_path wf_term wf_guards rf_term rf_getter rf_conv rf_guard] in *.
       rewrite !andb_true_iff in Hpair. destruct Hpair as [[[[[[[Hp Ht] Hplain] Hwf] Hgf] Hgs] Hcv] Hty].
       destruct p as [|f' [|f2 p]]; try discriminate. apply fid_beq_eq in Hp. subst f'.
       apply bytes_eqb_eq in Ht. subst rt.
-      destruct (match ty with TSource | TEndpoints | TPubKey => true | _ => false end) eqn:Estruct.
-      { (* a struct-valued field: JSONWriteProp wrote nothing, and the struct getters yield nothing without the member *)
-        assert (Hw' : w = B "JSONWriteProp") by (destruct ty; try discriminate; apply bytes_eqb_eq; exact Hwf). subst w.
-        assert (Ho : o = []).
-        { unfold entry_out in Hout. cbn [wf_guards wf_writer wf_via wf_term wf_path path_get] in Hout. rewrite Hg in Hout.
-          destruct (eval_guards fs [x30] (filter nonval gs)) as [[|]|]; [|inversion Hout; reflexivity|discriminate].
-          unfold t_value in Hout. ev_eqb_in Hout. cbn [guard_bytes] in Hout.
-          destruct (eval_guards fs [] gs) as [[|]|]; inversion Hout; reflexivity. }
-        subst o. split; [intros kv []|].
-        assert (Hj : jget val t = None).
-        { unfold jget. rewrite (fj_get_plain false ms t Hms Hplain). rewrite (Hlook t); [reflexivity|].
-          unfold keys_of, is_nlv_writer. cbn [wf_writer wf_term]. ev_eqb. left. reflexivity. }
-        exists None. split; [|exact I].
-        destruct ty; try discriminate; cbn [getter_fits rf_getter] in Hgf; apply bytes_eqb_eq in Hgf; subst rg.
-        - exact (gv_source_absent 1 val t rc Hsrc Hj).
-        - exact (gv_endpoints_absent 2 val t rc Hj).
-        - exact (gv_pubkey_absent 2 val t rc Hj). }
-      assert (Hgs' : forallb (guard_fits ty f) gs = true) by (destruct ty; try discriminate; exact Hgs).
-      clear Hgs. rename Hgs' into Hgs.
       (* what was written *)
       assert (Ho : o = [] \/ (exists zv, o = [(t, zv)] /\
                  ((bytes_eqb w (B "JSONWriteStringProp") = true /\ zv = Text.FStr [])
@@ -797,7 +797,7 @@ Section Field.
         + assert (Hin : In rg str_getters).
           { apply existsb_in in Hgf. simpl in Hgf. unfold str_getters. simpl.
             repeat (destruct Hgf as [Hgf|Hgf]; [tauto|]). destruct Hgf as [Hgf|[]]. subst rg. vm_compute in Eu. discriminate. }
-          exists None. rewrite (gv_str 2 val rg t rc Hin). unfold sub_get. rewrite (plain_no_dot t Hplain), Hj.
+          exists None. rewrite (gv_str dg val rg t rc Hin). unfold sub_get. rewrite (plain_no_dot t Hplain), Hj.
           destruct Hz as [->| ->]; split; try reflexivity; exact I.
       - (* TTime *)
         apply bytes_eqb_eq in Hwf. subst w. apply bytes_eqb_eq in Hgf. subst rg.
@@ -865,12 +865,22 @@ Section Field.
       intros H. cbn [fval_size]. induction l as [|y r IH]; [destruct H|]. destruct H as [<-|H]; [lia|]. specialize (IH H). lia.
     Qed.
 
+    (* the table of a leaf struct is defined on the parts of the value (shown in Proofs/C01LeafP.v) *)
+    Definition struct_defined (v : fval) : Prop :=
+      match v with
+      | FSource mt c => exists o, t_struct t_run (B "Source_MarshalJSON") (source_fields mt c) = Some o
+      | FEndpoints (Some e) => exists o, t_struct t_run (B "Endpoints_MarshalJSON") (endpoints_fields e) = Some o
+      | FPubKey id ow pem => exists o, t_struct t_run (B "PublicKey_MarshalJSON") (pubkey_fields id ow pem) = Some o
+      | _ => True
+      end.
+
     Lemma entry_defined ty f e r :
       pair_ok ty f e r = true ->
       (forall v, getf f fs = Some v -> wfv ty v = true /\ fval_size v <= bound) ->
+      (forall v, getf f fs = Some v -> wfv ty v = true -> struct_defined v) ->
       exists o, entry_out jw_tables (tr fe) d fs e = Some o.
     Proof.
-      intros Hpair Hv.
+      intros Hpair Hv Hstruct.
       destruct e as [t w p via gs]. destruct r as [rfid rt rg rc rgd].
       unfold pair_ok in Hpair. apply andb_true_iff in Hpair. destruct Hpair as [Hpair Htotal].
       unfold pair_ok_core in Hpair. cbn [wf_path wf_term wf_guards rf_term rf_getter rf_conv rf_guard] in *.
@@ -885,7 +895,8 @@ Section Field.
       assert (Hval : exists res, t_value (tr fe) t_run w via t (getf f fs) = Some res).
       { destruct (getf f fs) as [v|] eqn:Eg.
         - destruct (Hv v eq_refl) as [Hw Hsz]. unfold t_value.
-          destruct ty; try discriminate; cbn [writer_fits wf_writer] in Hwf; try (destruct v; discriminate).
+          pose proof (Hstruct v eq_refl Hw) as Hsd.
+          destruct ty; try discriminate; cbn [writer_fits wf_writer] in Hwf.
           + (* TItem *) destruct v as [i| | | | | | | | | | | | ]; try discriminate. rewrite Hwf.
             destruct (HD i Hw Hsz) as [o Ho]. rewrite Ho. eexists; reflexivity.
           + (* TItems *) destruct v as [ |[[|x l]|]| | | | | | | | | | | ]; try discriminate.
@@ -914,10 +925,16 @@ Section Field.
           + (* TDur *) destruct v as [ | | | | |dd| | | | | | | ]; try discriminate. apply bytes_eqb_eq in Hwf. subst w. ev_eqb.
             cbn [wf_fval] in Hw. assert (Hdom : dur_dom dd = true) by exact Hw.
             destruct (dur_roundtrip dd Hdom) as [b [Hb _]]. rewrite Hb. eexists; reflexivity.
-          + apply bytes_eqb_eq in Hwf. subst w. ev_eqb. eexists; reflexivity.
-          + apply bytes_eqb_eq in Hwf. subst w. ev_eqb. eexists; reflexivity.
-          + apply bytes_eqb_eq in Hwf. subst w. ev_eqb. eexists; reflexivity.
-          + apply bytes_eqb_eq in Hwf. subst w. ev_eqb. eexists; reflexivity.
+          + destruct v; try discriminate. apply bytes_eqb_eq in Hwf. subst w. ev_eqb. eexists; reflexivity.
+          + destruct v; try discriminate. apply bytes_eqb_eq in Hwf. subst w. ev_eqb. eexists; reflexivity.
+          + destruct v; try discriminate. apply bytes_eqb_eq in Hwf. subst w. ev_eqb. eexists; reflexivity.
+          + destruct v; try discriminate. apply bytes_eqb_eq in Hwf. subst w. ev_eqb. eexists; reflexivity.
+          + (* TSource *) destruct v as [ | | | | | | | | | |mt c| | ]; try discriminate. apply bytes_eqb_eq in Hwf. subst w. ev_eqb.
+            destruct Hsd as [o Ho]. rewrite Ho. eexists; reflexivity.
+          + (* TEndpoints *) destruct v as [ | | | | | | | | | | |[e|]| ]; try discriminate. apply bytes_eqb_eq in Hwf. subst w. ev_eqb.
+            destruct Hsd as [o Ho]. rewrite Ho. eexists; reflexivity.
+          + (* TPubKey *) destruct v as [ | | | | | | | | | | | |id ow pem]; try discriminate. apply bytes_eqb_eq in Hwf. subst w. ev_eqb.
+            destruct Hsd as [o Ho]. rewrite Ho. eexists; reflexivity.
         - (* unset *)
           assert (Hnt : match ty with TTime | TDur => False | _ => True end).
           { destruct ty; try exact I.
